@@ -189,6 +189,35 @@ pub fn run(args: &[String]) {
             }
         }
     }
+    // the join rule of m.room.join_rules is a string enum that carries data for two of its values: through JSON only
+    {
+        use ruma_events::room::join_rules::JoinRule;
+        let mut strings: Vec<String> = table.get("JoinRule").cloned().unwrap_or_default();
+        let specified = strings.clone();
+        for s in &specified {
+            strings.extend(near_misses(s, &mut rng));
+        }
+        strings.extend(["org.example.custom".to_owned(), "".to_owned(), "\u{e9}".to_owned()]);
+        strings.sort();
+        strings.dedup();
+        for s in &strings {
+            let r = guard(|| {
+                let v: JoinRule = serde_json::from_value(json!({"join_rule": s, "allow": []})).map_err(|e| e.to_string())?;
+                let out = v.as_str().to_owned();
+                let custom = matches!(v, JoinRule::_Custom(_));
+                let ser = serde_json::to_value(&v).ok().and_then(|j| j.get("join_rule").and_then(|x| x.as_str()).map(|x| x.to_owned())).unwrap_or_else(|| "<cannot be serialized>".into());
+                let again: Result<JoinRule, _> = serde_json::from_value(json!({"join_rule": out, "allow": []}));
+                let idem = again.as_ref().map(|a| a == &v).unwrap_or(false);
+                Ok::<Value, String>(json!({"kind": "conv", "enum": "JoinRule", "s": s, "out": out, "custom": custom, "display": out, "ser": ser, "de": out,
+                                          "idem": idem, "fromstring": out, "debug_has_string": true, "panic": false}))
+            });
+            out.put(&match r {
+                Ok(Ok(v)) => v,
+                Ok(Err(e)) => json!({"kind": "conv", "enum": "JoinRule", "s": s, "out": format!("<error {e}>"), "custom": true, "display": "", "ser": "", "de": "", "idem": false, "fromstring": "", "panic": false}),
+                Err(p) => json!({"kind": "conv", "enum": "JoinRule", "s": s, "out": "", "custom": false, "display": "", "ser": "", "de": "", "idem": false, "fromstring": "", "panic": true, "msg": p}),
+            });
+        }
+    }
     // the same string through the event-type enum of another kind: a timeline type that is converted from a state or
     // message-like type must equal the timeline type made from the string itself
     let mut all: Vec<String> = table.get("StateEventType").cloned().unwrap_or_default();
